@@ -7,10 +7,11 @@ sys.path.insert(0, HERE)
 sys.path.insert(0, "/repo")
 props = [json.loads(l) for l in open(os.path.join(HERE, "properties.jsonl"))]
 checks, na = [], []
+ready = set(open(os.path.join(HERE, "ready.txt")).read().split())  # reviewed + sound at 5 seeds
 for p in props:
     pid = p["id"]
     path = os.path.join(HERE, "vlib", "props", f"{pid}.py")
-    if not os.path.exists(path):
+    if pid not in ready or not os.path.exists(path):
         na.append(dict(property_id=pid, reason="check not built yet (planned in DESIGN.md section 5); nothing is claimed for it"))
         continue
     mod = importlib.import_module(f"vlib.props.{pid}")
